@@ -1630,7 +1630,7 @@ impl Check for C09 {
                 }
                 9 => {
                     ctx.counters.bump("kind.wellformed");
-                    let class = gen::gen_class(&mut rng);
+                    let class = gen::gen_class_with_huge(&mut rng);
                     Source::Session {
                         greeting: greeting.clone(),
                         session: gen::gen_session(&mut rng, class),
@@ -1714,6 +1714,10 @@ impl Check for C09 {
             let (s, n) = gen::gen_seg(&mut rng, &body);
             segs.push((s, n.to_string()));
             for (seg, name) in segs {
+                // megabyte streams only in coarse segments (a bytewise pass costs minutes)
+                if m.stream.len() > 512 * 1024 && !gen::coarse_only(&name) {
+                    continue;
+                }
                 for fl in all_flavours() {
                     let case = WireCase {
                         source: source.clone(),
